@@ -33,7 +33,9 @@ RULE = ('one run = one simulated hand on one of the 11 hand-history variants (si
         'stack `inf` (the format\'s notation for a stack nobody knows) and the history must still round-trip and replay to '
         'the same actions, payoffs and finite stacks. omitted_steps - folds and free checks that the next listed line makes unambiguous '
         'are left out of the action list and must be completed to the played hand. Operation commentary (words separated by runs of blanks, tabs, #, '
-        'quotes, backslashes) is part of the compared player actions. non-trivial = hand with >= 8 action lines; distinct = distinct '
+        'quotes, backslashes) is part of the compared player actions; commentary on dealing and chip-moving steps and on no-operations '
+        'interleaved by the scheduler (fault note_interleaved) is written as note lines of its own and the sequence of notes must '
+        'replay unchanged. non-trivial = hand with >= 8 action lines; distinct = distinct '
         '(variant, chip type, compression, fault plan, action-verb sequence) digests')
 ASSUMPTIONS = [
     'strings exclude control characters, the sequence \'\'\' and a trailing quote (TOML literal strings cannot carry them)',
@@ -111,6 +113,16 @@ def abstract(ops):
         elif t == 'HoleCardsShowingOrMucking':
             acts.append(('sm', op.player_index, tuple(map(repr, op.hole_cards)), op.commentary))
     return acts, hole, board
+
+
+PLAYER_ACTIONS = ('Folding', 'CheckingOrCalling', 'CompletionBettingOrRaisingTo', 'BringInPosting', 'StandingPatOrDiscarding',
+                  'HoleCardsShowingOrMucking')
+
+
+def notes(ops):
+    """Commentary that is not attached to a player's action line: the format writes it as '# text' lines of their own (they
+    replay as no-operations), in the order in which it was made."""
+    return [op.commentary for op in ops if type(op).__name__ not in PLAYER_ACTIONS and op.commentary is not None]
 
 
 def roundtrip(hh, what):
@@ -329,6 +341,7 @@ def run(ch, ctx):
         zt = ZeroTracker()
         world = World(ch, ctx, cfg, [zt], run_key=run_key_of(ch), dealer=dealer, runout_prefs=(None, 1),
                       commentary_num=2, commentary_fn=gen_commentary, muck_num=1, partial_show=False,
+                      chatter_num=ch.choice('c16.chatter', (0, 2, 4)),
                       profile=ch.choice('c16.profile', ('passive', 'balanced', 'balanced', 'aggressive')))
         st = world.state
         cut = None
@@ -403,6 +416,12 @@ def compare(st, end, what):
         i = next((k for k, (x, y) in enumerate(zip(a[0], b[0])) if x != y), min(len(a[0]), len(b[0])))
         raise Violation('C16.actions', f'{what}: player action #{i} differs: played {a[0][i:i + 1]}, replayed {b[0][i:i + 1]}',
                         rule='actions')
+    na, nb = notes(st.operations), notes(end.operations)
+    if na != nb:
+        i = next((k for k, (x, y) in enumerate(zip(na, nb)) if x != y), min(len(na), len(nb)))
+        raise Violation('C16.notes', f'{what}: note #{i} (commentary that is not on a player\'s action: on a dealing or chip-moving '
+                        f'step or a no-operation) differs: played {na[i:i + 1]}, replayed {nb[i:i + 1]} ({len(na)} vs {len(nb)} notes)',
+                        rule='notes')
     if a[1] != b[1] or a[2] != b[2]:
         raise Violation('C16.cards', f'{what}: cards differ: played hole {a[1]} board {a[2]}; replayed hole {b[1]} board {b[2]}',
                         rule='cards')
